@@ -414,7 +414,8 @@ LEAF_PARAM_GRID = {
     "Loc": [dict(loc=0.3), dict(loc=-7.5)],
     "Scale": [dict(scale=1.7), dict(scale=-0.4), dict(scale=1e-3)],
     "Exp": [dict()], "SoftPlus": [dict()], "Tanh": [dict()], "Identity": [dict()],
-    "LeakyTanh": [dict(max_val=3.0), dict(max_val=1.0), dict(max_val=0.5), dict(max_val=2.0)],
+    # 20 and 25: tanh(max_val) rounds to exactly 1.0 in float64 (the linear tails then start at |y| == 1)
+    "LeakyTanh": [dict(max_val=3.0), dict(max_val=1.0), dict(max_val=0.5), dict(max_val=2.0), dict(max_val=20.0), dict(max_val=25.0)],
 }
 
 
@@ -424,6 +425,8 @@ def rt_leaf_grid(prop, cname=None, first_only=False, count=None):
         if cname and cn != cname:
             continue
         for prm in plist:
+            if cn == "LeakyTanh" and prm.get("max_val", 0) >= 10 and prop != "C18":
+                continue  # saturating max_val: only the gradient-finiteness check (the autodiff REFERENCE of the other checks loses digits there)
             for v in leaf_grid_points(cn, prm):
                 if cn in ("Exp",) and abs(v) > 700:
                     continue
